@@ -95,7 +95,9 @@ class Lit:
 def _dedupe(lits):
     out = {}
     for l in lits:
-        out.setdefault(l.key(), l)
+        # the selector of a maximal-extension computer's state and a selector made locally are different literals
+        k = l.key() + ((("state" if "selector" in str(l.note or "") else "local"),) if l.role == "SEL" else ())
+        out.setdefault(k, l)
     return list(out.values())
 
 
